@@ -73,7 +73,9 @@ def run(chk):
         if len(p) >= 2 and chk.rng.random() < 0.2:
             pre = p[:chk.rng.randrange(1, len(p))]
             npre = norm_path(d, pre)
-            if npre is not None and evalcheck.jget(d, npre)[1]:
+            nfull = norm_path(d, p)
+            # p itself must exist too: otherwise creating the path changes the container before the RHS reads it
+            if npre is not None and evalcheck.jget(d, npre)[1] and nfull is not None and evalcheck.jget(d, nfull)[1]:
                 v1 = path_expr(pre)   # the new value is an existing container that holds the target (.a.b = .a)
         laws.append((d, p, v1, v2))
     reqs = []
